@@ -277,7 +277,10 @@ def _l7_l8(run: Run, pm, classes) -> None:
     run.require(mul is not None, "_print_Mul not found in the LaTeX printer")
     from ..flow import CFG
     hits = 0
-    for fn in [x for x in ast.walk(mul) if isinstance(x, ast.FunctionDef)]:
+    # _print_Mul itself, its nested helpers, and every method of the printer it calls through `self.` (a closure hoisted into a method is the same decision)
+    called = {c.func.attr for c in ast.walk(mul) if isinstance(c, ast.Call) and isinstance(c.func, ast.Attribute) and dotted(c.func.value) == "self"}
+    scopes = [x for x in ast.walk(mul) if isinstance(x, ast.FunctionDef)] + [x for x in classes[0].body if isinstance(x, ast.FunctionDef) and x.name in called and x is not mul]
+    for fn in [y for sc in scopes for y in ast.walk(sc) if isinstance(y, ast.FunctionDef)]:
         cfg = CFG(fn)
         for node in cfg.stmt_nodes():
             a = node.ast
